@@ -471,7 +471,7 @@ type c27Mitm struct {
 	k        int
 	captured [][]byte // the client's original datagrams
 	stop     chan struct{}
-	wg       sync.WaitGroup
+	wg       verifrt.WG
 	acts     map[string]int64
 }
 
@@ -787,7 +787,7 @@ func c27Run(cfg *c27Config, viol func(key, detail string)) *c27Result {
 	ctx, cancel := context.WithCancel(context.Background())
 	var mu sync.Mutex
 	var cli, srv *Conn
-	var bg sync.WaitGroup
+	var bg verifrt.WG
 	bg.Add(2)
 	go func() {
 		defer bg.Done()
